@@ -4,7 +4,7 @@ import Enc.Lemmas.ThriftDecode
 C08, thrift: the decoder (`decode`, `decodeList`, `decodeSet`, `decodeMap`, `decodeStruct`) is a prefix reader, for EVERY
 input (not only encoder output), every type, every fuel, strict or not, every current target value:
 
-  * `pre_decode`        `Pre true PS (decode p strict fuel ty · cur)`: the strict class for EVERY type
+  * `pre_decode`        `Pre true PS (decode p strict d fuel ty · cur)`: the strict class for EVERY type and depth
                         (`"eof"` iff cut at 0, `"unexpectedEof"` otherwise)
   * `pre_decodeList/Set/Map`   uniform class `PU`
   * `pre_decodeStruct`  `PS` for the first field header (`num = 0`), `PU` afterwards
@@ -12,35 +12,43 @@ input (not only encoder output), every type, every fuel, strict or not, every cu
 namespace Enc.Lemmas.ThriftTotal
 open Enc Enc.Model.Thrift Enc.Lemmas.ThriftPrim Enc.Lemmas.ThriftSkip
 
-theorem decodeStruct_succ (p : Proto) (strict : Bool) (fuel : Nat) (descs : List FieldDesc) (b : Bytes) (vs : Vals)
+/-- a reader followed by a continuation that reads nothing and returns a constant (the non-strict "skip the value" branches) -/
+theorem Pre.thenConst {α β} {ne : Bool} {P : Nat → String → Prop} {f : Bytes → R α} (hf : Pre ne P f) (w : β) :
+    Pre ne P (fun b => (f b).bind fun x => (.ok (w, x.2) : R β)) :=
+  Pre.bind_pure hf (g := fun x => .ok (w, x.2)) (fun _ => Pre.pure w)
+
+theorem decodeStruct_succ (p : Proto) (strict : Bool) (d fuel : Nat) (descs : List FieldDesc) (b : Bytes) (vs : Vals)
     (last : Int) (num : Nat) (seen : List Int) :
-    decodeStruct p strict (fuel + 1) descs b vs last num seen =
+    decodeStruct p strict d (fuel + 1) descs b vs last num seen =
       (wrapE (decide (0 < num)) (rField p b)).bind fun ((h, r) : FieldHdr × Bytes) =>
-        if h.t == .stop then .ok ((vs, seen), r)
+        if h.t == .stop then (if h.delta then .err "deltaStop" else .ok ((vs, seen), r))
         else
           match findById descs (wrap16 (if h.delta then h.id + last else h.id)) with
           | none =>
             (dontExpectEOF (if (h.t == .true_ || h.t == .bool) && p.coalesce then (.ok ((), r) : R Unit)
-              else skip p fuel h.t r)).bind fun ((_, r) : Unit × Bytes) =>
-                decodeStruct p strict fuel descs r vs (wrap16 (if h.delta then h.id + last else h.id)) (num + 1) seen
-          | some d =>
-            if h.t != typeOf d.ty && !(h.t == .true_ && typeOf d.ty == .bool) then
+              else skip p d fuel h.t r)).bind fun ((_, r) : Unit × Bytes) =>
+                decodeStruct p strict d fuel descs r vs (wrap16 (if h.delta then h.id + last else h.id)) (num + 1) seen
+          | some fd =>
+            if h.t != typeOf fd.ty && !(h.t == .true_ && typeOf fd.ty == .bool) then
               if strict then .err "typeMismatch"
-              else decodeStruct p strict fuel descs r vs (wrap16 (if h.delta then h.id + last else h.id)) (num + 1)
-                (wrap16 (if h.delta then h.id + last else h.id) :: seen)
+              else
+                (dontExpectEOF (if (h.t == .true_ || h.t == .bool) && p.coalesce then (.ok ((), r) : R Unit)
+                  else skip p d fuel h.t r)).bind fun ((_, r) : Unit × Bytes) =>
+                    decodeStruct p strict d fuel descs r vs (wrap16 (if h.delta then h.id + last else h.id)) (num + 1)
+                      (wrap16 (if h.delta then h.id + last else h.id) :: seen)
             else if p.coalesce && (h.t == .true_ || h.t == .bool) then
-              decodeStruct p strict fuel descs r (Vals.set vs d.pos (wrapPtr d.ty (.bool (h.t == .true_))))
+              decodeStruct p strict d fuel descs r (Vals.set vs fd.pos (wrapPtr fd.ty (.bool (h.t == .true_))))
                 (wrap16 (if h.delta then h.id + last else h.id)) (num + 1)
                 (wrap16 (if h.delta then h.id + last else h.id) :: seen)
             else
               (dontExpectEOF
-                (if d.enum then
-                  (match baseOf d.ty with
+                (if fd.enum then
+                  (match baseOf fd.ty with
                    | .int k => (rI32 p r).bind fun ((x, r) : Int × Bytes) =>
-                      (.ok (wrapPtr d.ty (.int (wrapTo k.bits x)), r) : R Val)
-                   | _ => decode p strict fuel d.ty r (Vals.get vs d.pos))
-                else decode p strict fuel d.ty r (Vals.get vs d.pos))).bind fun ((v, r) : Val × Bytes) =>
-                  decodeStruct p strict fuel descs r (Vals.set vs d.pos v)
+                      (.ok (wrapPtr fd.ty (.int (wrapTo k.bits x)), r) : R Val)
+                   | _ => decode p strict d fuel fd.ty r (Vals.get vs fd.pos))
+                else decode p strict d fuel fd.ty r (Vals.get vs fd.pos))).bind fun ((v, r) : Val × Bytes) =>
+                  decodeStruct p strict d fuel descs r (Vals.set vs fd.pos v)
                     (wrap16 (if h.delta then h.id + last else h.id)) (num + 1)
                     (wrap16 (if h.delta then h.id + last else h.id) :: seen) := by
   rw [decodeStruct]
@@ -51,17 +59,17 @@ theorem decodeStruct_succ (p : Proto) (strict : Bool) (fuel : Nat) (descs : List
   | panic e => simp only [wrapE_panic, Res.bind]
 
 theorem decode_all (p : Proto) (strict : Bool) : ∀ fuel,
-    (∀ ty cur, Pre true PS (fun b => decode p strict fuel ty b cur)) ∧
-    (∀ et n acc, Pre false PU (fun b => decodeList p strict fuel et n b acc)) ∧
-    (∀ kt n acc, Pre false PU (fun b => decodeSet p strict fuel kt n b acc)) ∧
-    (∀ kt vt n acc, Pre false PU (fun b => decodeMap p strict fuel kt vt n b acc)) ∧
-    (∀ descs vs last num seen,
-      Pre true (PStruct num) (fun b => decodeStruct p strict fuel descs b vs last num seen)) := by
+    (∀ d ty cur, Pre true PS (fun b => decode p strict d fuel ty b cur)) ∧
+    (∀ d et n acc, Pre false PU (fun b => decodeList p strict d fuel et n b acc)) ∧
+    (∀ d kt n acc, Pre false PU (fun b => decodeSet p strict d fuel kt n b acc)) ∧
+    (∀ d kt vt n acc, Pre false PU (fun b => decodeMap p strict d fuel kt vt n b acc)) ∧
+    (∀ d descs vs last num seen,
+      Pre true (PStruct num) (fun b => decodeStruct p strict d fuel descs b vs last num seen)) := by
   intro fuel
   induction fuel with
   | zero =>
-    refine ⟨fun ty cur => ?_, fun et n acc => ?_, fun kt n acc => ?_, fun kt vt n acc => ?_,
-      fun descs vs last num seen => ?_⟩
+    refine ⟨fun d ty cur => ?_, fun d et n acc => ?_, fun d kt n acc => ?_, fun d kt vt n acc => ?_,
+      fun d descs vs last num seen => ?_⟩
     · simp only [decode]; exact Pre.err _
     · simp only [decodeList]; exact Pre.err _
     · simp only [decodeSet]; exact Pre.err _
@@ -69,16 +77,16 @@ theorem decode_all (p : Proto) (strict : Bool) : ∀ fuel,
     · simp only [decodeStruct]; exact Pre.err _
   | succ fuel ih =>
     obtain ⟨ih1, ih2, ih3, ih4, ih5⟩ := ih
-    have ih1W : ∀ ty cur, Pre false PW (fun b => decode p strict fuel ty b cur) :=
-      fun ty cur => (ih1 ty cur).toPW.weaken
-    have ih5U : ∀ descs vs last num seen,
-        Pre false PU (fun b => decodeStruct p strict fuel descs b vs last (num + 1) seen) := by
-      intro descs vs last num seen
-      have := ih5 descs vs last (num + 1) seen
+    have ih1W : ∀ d ty cur, Pre false PW (fun b => decode p strict d fuel ty b cur) :=
+      fun d ty cur => (ih1 d ty cur).toPW.weaken
+    have ih5U : ∀ d descs vs last num seen,
+        Pre false PU (fun b => decodeStruct p strict d fuel descs b vs last (num + 1) seen) := by
+      intro d descs vs last num seen
+      have := ih5 d descs vs last (num + 1) seen
       rw [PStruct_succ] at this
       exact this.weaken
-    refine ⟨fun ty cur => ?_, fun et n acc => ?_, fun kt n acc => ?_, fun kt vt n acc => ?_,
-      fun descs vs last num seen => ?_⟩
+    refine ⟨fun d ty cur => ?_, fun d et n acc => ?_, fun d kt n acc => ?_, fun d kt vt n acc => ?_,
+      fun d descs vs last num seen => ?_⟩
     · -- decode
       cases ty with
       | bool =>
@@ -98,7 +106,7 @@ theorem decode_all (p : Proto) (strict : Bool) : ∀ fuel,
       | any => simp only [decode]; exact Pre.panic _
       | arr n t => simp only [decode]; exact Pre.panic _
       | slice et =>
-        refine Pre.congr ?_ (fun b => decode_slice p strict fuel et b cur)
+        refine Pre.congr ?_ (fun b => decode_slice p strict d fuel et b cur)
         by_cases hu : isU8 et = true
         · simp only [hu, if_true]
           exact Pre.bind_post (pre_rBytes p) (by pure_tac)
@@ -109,8 +117,11 @@ theorem decode_all (p : Proto) (strict : Bool) : ∀ fuel,
           · intro _
             apply Pre.ite
             · exact fun _ => Pre.err _
-            · exact fun _ => Pre.pure _
-          · exact fun _ => ih2 et a.2 []
+            · exact fun _ => (pre_skipN p (d + 1) fuel _ a.2).thenConst _
+          · intro _
+            apply Pre.ite
+            · exact fun _ => Pre.err _
+            · exact fun _ => ih2 (d + 1) et a.2 []
       | map kt vt =>
         simp only [decode]
         apply Pre.ite
@@ -124,8 +135,11 @@ theorem decode_all (p : Proto) (strict : Bool) : ∀ fuel,
             · intro _
               apply Pre.ite
               · exact fun _ => Pre.err _
-              · exact fun _ => Pre.pure _
-            · exact fun _ => ih3 kt a.2 .nil
+              · exact fun _ => (pre_skipN p (d + 1) fuel _ a.2).thenConst _
+            · intro _
+              apply Pre.ite
+              · exact fun _ => Pre.err _
+              · exact fun _ => ih3 (d + 1) kt a.2 .nil
         · intro _
           refine Pre.bind_first (pre_rMap p) (fun a => ?_) PS_pos
           dsimp +instances only
@@ -136,96 +150,107 @@ theorem decode_all (p : Proto) (strict : Bool) : ∀ fuel,
             · intro _
               apply Pre.ite
               · exact fun _ => Pre.err _
-              · exact fun _ => Pre.pure _
+              · exact fun _ => (pre_skipPairs p (d + 1) fuel _ _ a.2.2).thenConst _
             · intro _
               apply Pre.ite
               · intro _
                 apply Pre.ite
                 · exact fun _ => Pre.err _
-                · exact fun _ => Pre.pure _
-              · exact fun _ => ih4 kt vt a.2.2 .nil
+                · exact fun _ => (pre_skipPairs p (d + 1) fuel _ _ a.2.2).thenConst _
+              · intro _
+                apply Pre.ite
+                · exact fun _ => Pre.err _
+                · exact fun _ => ih4 (d + 1) kt vt a.2.2 .nil
       | struct fs =>
-        cases cur <;> simp only [decode] <;> (try exact Pre.err _)
-        rename_i vs
-        have := ih5 (fieldDescs fs) vs 0 0 []
+        cases cur <;> simp only [decode] <;> refine Pre.ite (fun _ => Pre.err _) (fun _ => ?_) <;>
+          (try exact Pre.err _)
+        rename_i vs _
+        have := ih5 (d + 1) (fieldDescs fs) vs 0 0 []
         have e : PStruct 0 = PS := by unfold PStruct; simp
         rw [e] at this
         exact Pre.bind_post this (by pure_tac)
       | ptr et =>
-        cases cur <;> simp only [decode] <;> exact Pre.bind_post (ih1 et _) (by pure_tac)
+        cases cur <;> simp only [decode] <;> exact Pre.bind_post (ih1 d et _) (by pure_tac)
       | named nm t' =>
         simp only [decode]
-        exact ih1 t' cur
+        exact ih1 d t' cur
     · -- decodeList
       cases n with
       | zero => simp only [decodeList]; exact Pre.pure _
       | succ n =>
         simp only [decodeList]
-        exact Pre.seqU (Pre.dontExpect (ih1W et _)) (fun a => by dsimp +instances only; exact ih2 et n _)
+        exact Pre.seqU (Pre.dontExpect (ih1W d et _)) (fun a => by dsimp +instances only; exact ih2 d et n _)
     · cases n with
       | zero => simp only [decodeSet]; exact Pre.pure _
       | succ n =>
         simp only [decodeSet]
-        exact Pre.seqU (Pre.dontExpect (ih1W kt _)) (fun a => by dsimp +instances only; exact ih3 kt n _)
+        exact Pre.seqU (Pre.dontExpect (ih1W d kt _)) (fun a => by dsimp +instances only; exact ih3 d kt n _)
     · cases n with
       | zero => simp only [decodeMap]; exact Pre.pure _
       | succ n =>
         simp only [decodeMap]
-        refine Pre.seqU (Pre.dontExpect (ih1W kt _)) (fun k => ?_)
+        refine Pre.seqU (Pre.dontExpect (ih1W d kt _)) (fun k => ?_)
         dsimp +instances only
-        exact Pre.seqU (Pre.dontExpect (ih1W vt _)) (fun v => by dsimp +instances only; exact ih4 kt vt n _)
+        exact Pre.seqU (Pre.dontExpect (ih1W d vt _)) (fun v => by dsimp +instances only; exact ih4 d kt vt n _)
     · -- decodeStruct
-      refine Pre.congr ?_ (fun b => decodeStruct_succ p strict fuel descs b vs last num seen)
+      refine Pre.congr ?_ (fun b => decodeStruct_succ p strict d fuel descs b vs last num seen)
       refine Pre.bind_first (pre_wrapE_rField p num) (fun h => ?_) (PStruct_pos num)
       dsimp +instances only
       apply Pre.ite
-      · exact fun _ => Pre.pure _
+      · intro _
+        apply Pre.ite
+        · exact fun _ => Pre.err _
+        · exact fun _ => Pre.pure _
       · intro _
         generalize findById descs (wrap16 (if h.delta = true then h.id + last else h.id)) = od
         cases od with
         | none =>
           dsimp +instances only
-          refine Pre.seqU (ne := false) (Pre.dontExpect ?_) (fun _ => ih5U _ _ _ _ _)
+          refine Pre.seqU (ne := false) (Pre.dontExpect ?_) (fun _ => ih5U d _ _ _ _ _)
           apply Pre.ite
           · exact fun _ => Pre.pure _
-          · exact fun _ => (pre_skip p fuel h.t).toPW.weaken
-        | some d =>
+          · exact fun _ => (pre_skip p d fuel h.t).toPW.weaken
+        | some fd =>
           dsimp +instances only
           apply Pre.ite
           · intro _
             apply Pre.ite
             · exact fun _ => Pre.err _
-            · exact fun _ => ih5U _ _ _ _ _
+            · intro _
+              refine Pre.seqU (ne := false) (Pre.dontExpect ?_) (fun _ => ih5U d _ _ _ _ _)
+              apply Pre.ite
+              · exact fun _ => Pre.pure _
+              · exact fun _ => (pre_skip p d fuel h.t).toPW.weaken
           · intro _
             apply Pre.ite
-            · exact fun _ => ih5U _ _ _ _ _
+            · exact fun _ => ih5U d _ _ _ _ _
             · intro _
               refine Pre.seqU (ne := false) (Pre.dontExpect ?_)
-                (fun _ => by dsimp +instances only; exact ih5U _ _ _ _ _)
+                (fun _ => by dsimp +instances only; exact ih5U d _ _ _ _ _)
               apply Pre.ite
               · intro _
-                generalize baseOf d.ty = bt
+                generalize baseOf fd.ty = bt
                 cases bt <;> dsimp +instances only <;>
                   first
-                    | exact ih1W _ _
+                    | exact ih1W d _ _
                     | exact (Pre.bind_post (pre_rI32 p) (by pure_tac)).toPW.weaken
-              · exact fun _ => ih1W _ _
+              · exact fun _ => ih1W d _ _
 
-variable (p : Proto) (strict : Bool) (fuel : Nat)
+variable (p : Proto) (strict : Bool) (d fuel : Nat)
 
-theorem pre_decode (ty : Ty) (cur : Val) : Pre true PS (fun b => decode p strict fuel ty b cur) :=
-  (decode_all p strict fuel).1 ty cur
+theorem pre_decode (ty : Ty) (cur : Val) : Pre true PS (fun b => decode p strict d fuel ty b cur) :=
+  (decode_all p strict fuel).1 d ty cur
 theorem pre_decodeList (et : Ty) (n : Nat) (acc : List Val) :
-    Pre false PU (fun b => decodeList p strict fuel et n b acc) :=
-  (decode_all p strict fuel).2.1 et n acc
+    Pre false PU (fun b => decodeList p strict d fuel et n b acc) :=
+  (decode_all p strict fuel).2.1 d et n acc
 theorem pre_decodeSet (kt : Ty) (n : Nat) (acc : Vals) :
-    Pre false PU (fun b => decodeSet p strict fuel kt n b acc) :=
-  (decode_all p strict fuel).2.2.1 kt n acc
+    Pre false PU (fun b => decodeSet p strict d fuel kt n b acc) :=
+  (decode_all p strict fuel).2.2.1 d kt n acc
 theorem pre_decodeMap (kt vt : Ty) (n : Nat) (acc : Vals) :
-    Pre false PU (fun b => decodeMap p strict fuel kt vt n b acc) :=
-  (decode_all p strict fuel).2.2.2.1 kt vt n acc
+    Pre false PU (fun b => decodeMap p strict d fuel kt vt n b acc) :=
+  (decode_all p strict fuel).2.2.2.1 d kt vt n acc
 theorem pre_decodeStruct (descs : List FieldDesc) (vs : Vals) (last : Int) (num : Nat) (seen : List Int) :
-    Pre true (PStruct num) (fun b => decodeStruct p strict fuel descs b vs last num seen) :=
-  (decode_all p strict fuel).2.2.2.2 descs vs last num seen
+    Pre true (PStruct num) (fun b => decodeStruct p strict d fuel descs b vs last num seen) :=
+  (decode_all p strict fuel).2.2.2.2 d descs vs last num seen
 
 end Enc.Lemmas.ThriftTotal
